@@ -5,6 +5,38 @@ From PV Require Import Model.Dom Spec.DomSpec Proofs.DomFollow Proofs.DomInv Pro
 Lemma terminates_ex c cat : exists n, n <= S (len c) /\ to_page_dom n c cat <> DFuel.
 Proof. exists (S (len c)). split; [lia | apply to_page_dom_terminates; lia]. Qed.
 
+(* the fuel the case protocol (and the C01 pipeline model) uses is enough *)
+Lemma to_page_dom_enough_fuel c cat : to_page_dom (S (len c)) c cat <> DFuel.
+Proof. apply to_page_dom_terminates. lia. Qed.
+
+(* more fuel does not change an answer *)
+Lemma dom_loop_mono c : forall n q pg r,
+  dom_loop n c q pg = r -> r <> DFuel -> forall m, n <= m -> dom_loop m c q pg = r.
+Proof.
+  induction n as [|n IH]; intros q pg r H Hr m Hm; cbn [dom_loop] in H; [congruence|].
+  destruct m as [|m]; [lia|]. cbn [dom_loop].
+  destruct (q_nodes q) as [|[[id r0] o] rest]; [exact H|].
+  destruct o; try exact H.
+  destruct (get_name l (B "Type")) as [t|]; [|exact H].
+  destruct (bytes_eqb t (B "Pages")).
+  - destruct (to_page_tree_node c _ r0 (ODict l)) as [[nd q']| |]; try exact H.
+    apply IH; [exact H | exact Hr | lia].
+  - destruct (bytes_eqb t (B "Page")); [|exact H].
+    destruct (to_page c r0 (ODict l)); try exact H.
+    apply IH; [exact H | exact Hr | lia].
+Qed.
+
+Lemma to_page_dom_fuel_mono c cat n m :
+  n <= m -> to_page_dom n c cat <> DFuel -> to_page_dom m c cat = to_page_dom n c cat.
+Proof.
+  intros Hm H. unfold to_page_dom in *.
+  destruct (to_catalog c cq_new cat) as [[[[res count] kids] q]| |]; try reflexivity.
+  destruct (dom_loop n c q []) eqn:DL.
+  - rewrite (dom_loop_mono c n q [] _ DL ltac:(discriminate) m Hm). reflexivity.
+  - rewrite (dom_loop_mono c n q [] _ DL ltac:(discriminate) m Hm). reflexivity.
+  - congruence.
+Qed.
+
 Lemma once c cat n res pg :
   to_page_dom n c cat = DOk (res, pg) ->
   exists root, root_node c cat root /\
